@@ -25,6 +25,12 @@ pub mod vident {
             ensures match r { Ok(a) => ip_canon(s@) == Some(a.canon@), Err(_) => ip_canon(s@) is None } { unimplemented!() }
         #[verifier::external_body]
         pub fn to_string(&self) -> (r: String) ensures r@ == self.canon@ { unimplemented!() }
+        // classification predicates of std::net::IpAddr (results unspecified)
+        #[verifier::external_body] pub fn is_unspecified(&self) -> bool { unimplemented!() }
+        #[verifier::external_body] pub fn is_multicast(&self) -> bool { unimplemented!() }
+        #[verifier::external_body] pub fn is_loopback(&self) -> bool { unimplemented!() }
+        #[verifier::external_body] pub fn is_ipv4(&self) -> bool { unimplemented!() }
+        #[verifier::external_body] pub fn is_ipv6(&self) -> bool { unimplemented!() }
     }
     }
 }
